@@ -88,8 +88,9 @@ theorem impMods_append_loops : ∀ (Z Y : List Cont), (∀ z ∈ Z, isLoop z = t
 theorem popTo_fields (f : Frame) (rest : List Frame) (vm : VM) :
     (popTo f rest vm).1.stack = rest ∧ (popTo f rest vm).1.base = topBase rest ∧
     (popTo f rest vm).1.minRegs = topMin rest ∧
-    (popTo f rest vm).1.placeholders = vm.placeholders ∧ (popTo f rest vm).1.seq = vm.seq ∧
-    (popTo f rest vm).1.str = vm.str ∧ (popTo f rest vm).1.exports = vm.exports ∧
+    (popTo f rest vm).1.placeholders = vm.placeholders ∧
+    (popTo f rest vm).1.seq = min vm.seq f.seq0 ∧
+    (popTo f rest vm).1.str = min vm.str f.str0 ∧ (popTo f rest vm).1.exports = vm.exports ∧
     (popTo f rest vm).1.cached = vm.cached := by
   cases rest with
   | nil => simp [popTo, topBase, topMin]
@@ -115,7 +116,7 @@ theorem unwindGo_spec (c : Bool) : ∀ (fs : List Frame) (vm : VM) (R : List Fra
     let r := unwindGo c fs vm
     dropLoop r.1.stack = some R ∧ r.1.base = topBase r.1.stack ∧
     (r.2 = none → ∃ b, r.1.stack = b :: R ∧ b.barrier = true) ∧
-    r.1.placeholders = vm.placeholders ∧ r.1.seq = vm.seq ∧ r.1.str = vm.str ∧
+    r.1.placeholders = vm.placeholders ∧ r.1.seq ≤ vm.seq ∧ r.1.str ≤ vm.str ∧
     r.1.exports = vm.exports ∧ r.1.cached = vm.cached := by
   intro fs
   induction fs with
@@ -126,6 +127,7 @@ theorem unwindGo_spec (c : Bool) : ∀ (fs : List Frame) (vm : VM) (R : List Fra
     split
     · -- caught by this frame
       simp [hs, hb, hd]
+      exact ⟨Nat.min_le_left _ _, Nat.min_le_left _ _⟩
     · by_cases hbar : f.barrier = true
       · simp [hbar, hs, hb]
         simp [dropLoop, hbar] at hd
@@ -138,8 +140,8 @@ theorem unwindGo_spec (c : Bool) : ∀ (fs : List Frame) (vm : VM) (R : List Fra
         simp only [] at this
         refine ⟨this.1, this.2.1, this.2.2.1, ?_, ?_, ?_, ?_, ?_⟩
         · rw [this.2.2.2.1, hp.2.2.2.1]
-        · rw [this.2.2.2.2.1, hp.2.2.2.2.1]
-        · rw [this.2.2.2.2.2.1, hp.2.2.2.2.2.1]
+        · exact Nat.le_trans this.2.2.2.2.1 (by rw [hp.2.2.2.2.1]; exact Nat.min_le_left _ _)
+        · exact Nat.le_trans this.2.2.2.2.2.1 (by rw [hp.2.2.2.2.2.1]; exact Nat.min_le_left _ _)
         · rw [this.2.2.2.2.2.2.1, hp.2.2.2.2.2.2.1]
         · rw [this.2.2.2.2.2.2.2, hp.2.2.2.2.2.2.2]
 
